@@ -44,6 +44,15 @@ CHECKS = {
  "C12": ("model_checking", "TLC model checking of IoFaults.tla + exhaustive fault enumeration per input on every entry point, call logs validated by TLC against the I/O contract",
          "IoFaults.tla states the contract over individual sink/source calls (error iff a call failed, accepted bytes always a prefix, complete and flushed on Ok) and is model-checked against a reference write_all pipeline under every fault script; on the real code every fault position (each write as Err and as Ok(0), each flush, each read) of every sample input is enumerated for all decoders, the raw LZMA2 decoder, Stream and all encoder variants, with short-write patterns; the recorded call logs are validated by TLC with the contract as invariant.",
          "5 C12"),
+ "C11": ("model_checking", "TLC model checking of Reader.tla / LzmaDecoder.tla / Lzma2.tla + replay with the consumed-bytes comparison on; embedded payloads with trailing bytes through several reader kinds",
+         "The stop rules (size reached, end control byte) are actions of the decoder models and every successful behaviour TLC exports is replayed with the reader position compared against the end of the payload; payloads followed by arbitrary bytes are decoded in place through slices, Cursors, scripted sources and BufReaders of several capacities. The byte position itself (decoder consumption = encoder emission) is range-coder arithmetic and comes from the harness kernel, not from TLA+.",
+         "5 C11"),
+ "C13": ("model_checking", "TLC model checking of Reader.tla (FragIndependent under every fragment choice) + differential runs under scripted fragmentation with the BufRead protocol log validated by TLC",
+         "Reader.tla lets the source expose any non-empty prefix at every fill_buf and shows the decoders' helper loops give fragment-independent verdict and consumption; on the real code valid and invalid inputs of all three formats are decoded through 1-byte, 2-byte, mixed and random fragments and BufReader capacities 1..random and compared with the all-at-once run, and every fill/consume/read call of the scripted source is validated against the protocol specification.",
+         "5 C13"),
+ "C14": ("model_checking", "TLC model checking of RawReuse.tla (ResetIsFresh over all operation histories) + real decoder histories compared with new decoders, projections validated by TLC",
+         "RawReuse.tla lets a decode leave any used state behind and checks that reset restores the projection of a new decoder; on the real objects seeded histories of valid / corrupt / truncated / property-changing / state-leaning streams and all reset variants are run, every decompress after a reset is repeated on a new object (verdict and bytes must agree) and the projection hook after every call is validated against the specification.",
+         "5 C14"),
 }
 NOT_YET = {}
 props = [json.loads(l) for l in open(os.path.join(V, "properties.jsonl"))]
